@@ -21,33 +21,42 @@ def Err.name : Err → String
   | .other => "Other"
 
 /-- Link classes of the pool: DirectedEdge, UnDirectedEdge, a subclass of each,
-    another TwoEndedLink class, an n-ary Link class. -/
-inductive LCls | D | U | DD | UU | X | N
+    another TwoEndedLink class, an n-ary Link class, and `DU(DirectedEdge, UnDirectedEdge)`, a
+    class deriving from BOTH edge classes. -/
+inductive LCls | D | U | DD | UU | X | N | DU
   deriving DecidableEq, Repr, Inhabited
 
 inductive Kind | undirected | directed | other | nary
   deriving DecidableEq, Repr
 
+/-- how `neighbors` / `find_links` treat the class: they test `issubclass(…, UnDirectedEdge)`
+    FIRST, so a class deriving from both edge classes is undirected -/
 def LCls.kind : LCls → Kind
   | .D => .directed | .DD => .directed | .U => .undirected | .UU => .undirected
-  | .X => .other | .N => .nary
+  | .X => .other | .N => .nary | .DU => .undirected
+
+/-- `issubclass(type(link), DirectedEdge)`, the only test pyvis makes -/
+def LCls.subDirected : LCls → Bool
+  | .D => true | .DD => true | .DU => true | _ => false
 
 def LCls.name : LCls → String
-  | .D => "D" | .U => "U" | .DD => "DD" | .UU => "UU" | .X => "X" | .N => "N"
+  | .D => "D" | .U => "U" | .DD => "DD" | .UU => "UU" | .X => "X" | .N => "N" | .DU => "DU"
 
 def LCls.ofString? : String → Option LCls
   | "D" => some .D | "U" => some .U | "DD" => some .DD | "UU" => some .UU
-  | "X" => some .X | "N" => some .N | _ => none
+  | "X" => some .X | "N" => some .N | "DU" => some .DU | _ => none
 
-/-- Vertex classes of the pool: Vertex, a subclass, a falsy subclass, Universe. -/
-inductive VCls | V | SV | FV | UNI
+/-- Vertex classes of the pool: Vertex, a subclass, a falsy subclass, Universe, a mixin class
+    `MX(Vertex)` and a class with TWO bases `MV(SV, MX)` (MRO: MV, SV, MX, Vertex). -/
+inductive VCls | V | SV | FV | UNI | MX | MV
   deriving DecidableEq, Repr, Inhabited
 
 def VCls.name : VCls → String
-  | .V => "V" | .SV => "SV" | .FV => "FV" | .UNI => "UNI"
+  | .V => "V" | .SV => "SV" | .FV => "FV" | .UNI => "UNI" | .MX => "MX" | .MV => "MV"
 
 def VCls.ofString? : String → Option VCls
-  | "V" => some .V | "SV" => some .SV | "FV" => some .FV | "UNI" => some .UNI | _ => none
+  | "V" => some .V | "SV" => some .SV | "FV" => some .FV | "UNI" => some .UNI
+  | "MX" => some .MX | "MV" => some .MV | _ => none
 
 /-- Point update of a function-valued field. -/
 def upd {α : Type} (f : Nat → α) (i : Nat) (x : α) : Nat → α :=
